@@ -767,6 +767,9 @@ def check_function(model, fi, alt, sigs, callee_names=None):
             continue
         if dims and dims[0] == 'tuple':
             env[p] = ('tup', [arr(d_) if d_ is not None else None for d_ in dims[1]])
+        elif dims and dims[0] == 'tuple_obj':
+            # the output tuple of a pullback wrapper: one Taylor polynomial per operand (the tracer's protocol)
+            env[p] = ('tup', [('obj', tuple(d_[1])) if d_ is not None else None for d_ in dims[1]])
         elif dims and dims[0] == 'obj':
             env[p] = ('obj', tuple(dims[1]))
         elif dims and dims[0] == 'int':
